@@ -223,6 +223,7 @@ func specInScope(stack []scope, n int, s scope) bool {
 //
 //@ func (*Parser).evaluateFunctionCall
 //@   ensures[C06] typed: err == nil ==> specTyped(asExprFromCall(result0))
+//@   ensures[C09,C16] the-call-is-recorded-as-an-edge-from-the-function-it-stands-in: err == nil ==> isType(result0, "parser.FunctionCall") && has(p.usedFuncs, p.currFunc) && inList(get(p.usedFuncs, p.currFunc), asType(result0, "parser.FunctionCall").name)
 //
 //@ func (*Parser).evaluateAppCall
 //@   ensures[C06] typed: err == nil ==> specTyped(asExprFromCall(result0))
@@ -327,6 +328,14 @@ func specInScope(stack []scope, n int, s scope) bool {
 // getUsedFuncs: the result contains every direct callee of startFunc and everything the
 // recursive calls on those callees return -- by induction over the (acyclic) call graph, every
 // function reachable from startFunc.
+// cleanProgram removes function definitions only: every statement that is not a function
+// definition and every function whose name the reachability closure of the top-level code
+// (getUsedFuncs("")) contains is still there afterwards, and what is kept keeps its order.
+//@ func (*Parser).cleanProgram
+//@   ensures[C09,C16] closure-of-the-top-level-code-decides: calls(getUsedFuncs) == 1 && arg(getUsedFuncs, 0, 1) == ""
+//@   ensures[C09,C16] reachable-functions-and-all-other-statements-are-kept: err == nil && forall(k, 0, len(program.body), (program.body[k].StatementType() != STATEMENT_TYPE_FUNCTION_DEFINITION || inList(res(getUsedFuncs, 0, 0), asType(program.body[k], "parser.FunctionDefinition").name)) ==> inList(result0.body, program.body[k]))
+//@   ensures[C09] nothing-is-added: forall(j, 0, len(result0.body), inList(program.body, result0.body[j]))
+//
 //@ func (*Parser).getUsedFuncs
 //@   flag modular: true
 //@   loop @"range usedFuncsTemp" invariant[C09] callees-so-far-and-their-closures-included: calls(getUsedFuncs) == rangeindex + 1 && forall(k, 0, rangeindex + 1, inList(usedFuncs, calleesOf(p, startFunc)[k]) && arg(getUsedFuncs, k, 1) == calleesOf(p, startFunc)[k] && forall(j, 0, len(res(getUsedFuncs, k, 0)), inList(usedFuncs, res(getUsedFuncs, k, 0)[j])))
